@@ -460,8 +460,17 @@ fn compile_vote_delegation_certificate(
     x: &tir::AdHocDirective,
     network: Network,
 ) -> Result<primitives::Certificate, Error> {
-    let stake = coercion::expr_into_stake_credential(&x.data["stake"], network)?;
-    let drep = coercion::expr_into_bytes(&x.data["drep"])?;
+    let stake = x
+        .data
+        .get("stake")
+        .ok_or(Error::MissingExpression("vote delegation stake".to_string()))?;
+    let stake = coercion::expr_into_stake_credential(stake, network)?;
+
+    let drep = x
+        .data
+        .get("drep")
+        .ok_or(Error::MissingExpression("vote delegation drep".to_string()))?;
+    let drep = coercion::expr_into_bytes(drep)?;
     let drep = primitives::DRep::Key(coercion::bytes_into_hash(drep.as_slice())?);
 
     Ok(primitives::Certificate::VoteDeleg(stake, drep))
@@ -987,16 +996,23 @@ fn infer_plutus_version(witness_set: &primitives::WitnessSet) -> PlutusVersion {
 fn compute_script_data_hash(
     witness_set: &primitives::WitnessSet,
     pparams: &PParams,
-) -> Option<primitives::Hash<32>> {
+) -> Result<Option<primitives::Hash<32>>, Error> {
+    // nothing to hash when the transaction runs no script
+    if witness_set.redeemer.is_none() && witness_set.plutus_data.is_none() {
+        return Ok(None);
+    }
+
     let version = infer_plutus_version(witness_set);
 
-    let cost_model = pparams.cost_models.get(&version).unwrap();
+    let cost_model = pparams.cost_models.get(&version).ok_or_else(|| {
+        Error::MissingExpression(format!("cost model for plutus language {version}"))
+    })?;
 
     let language_view = primitives::LanguageView(version, cost_model.clone());
 
     let data = primitives::ScriptData::build_for(witness_set, &Some(language_view));
 
-    data.map(|x| x.hash())
+    Ok(data.map(|x| x.hash()))
 }
 
 pub fn entry_point(tx: &tir::Tx, pparams: &PParams) -> Result<primitives::Tx<'static>, Error> {
@@ -1004,7 +1020,8 @@ pub fn entry_point(tx: &tir::Tx, pparams: &PParams) -> Result<primitives::Tx<'st
     let transaction_witness_set = compile_witness_set(tx, &transaction_body, pparams.network)?;
     let auxiliary_data = compile_auxiliary_data(tx)?;
 
-    transaction_body.script_data_hash = compute_script_data_hash(&transaction_witness_set, pparams);
+    transaction_body.script_data_hash =
+        compute_script_data_hash(&transaction_witness_set, pparams)?;
     transaction_body.auxiliary_data_hash = auxiliary_data.as_ref().map(|x| x.compute_hash());
 
     Ok(primitives::Tx {
